@@ -25,7 +25,7 @@ def run(tier, seed):
         n = 4000 if tier == "quick" else 60000
         standard_unit_leg(ctx, "c14-unit", [seed, n, ctx.cases_dir],
                           "a DR6/DR7 bit function returned an image other than the architecture-level meaning of the operation")
-        k = 16 if tier == "quick" else 200
+        k = 16 if tier == "quick" else 120
         s = standard_unit_leg(ctx, "c14-e2e", [seed, k, ctx.cases_dir, ctx.scratch],
                               "after a watchpoint command or stop, some thread's debug registers did not decode to exactly the requested watchpoint set, "
                               "or a command was accepted/refused against the rule (at most four, one per address)")
